@@ -78,7 +78,7 @@ def moments_unit(pr, N, tier):
 
 def run(tier, seed):
     pr = Prover("C04", tier)
-    orders = [4, 5, 6] if tier == "quick" else [4, 5, 6, 8, 10]
+    orders = [4, 5, 6, 8, 10]   # all orders of the property's quantifier in both tiers (sympy decides order 10 in < 1 s)
     for N in orders:
         moments_unit(pr, N, tier)
     obs = pr.obs
